@@ -109,8 +109,9 @@ Print Assumptions put_check_complete.
 (* Type soundness of the row evaluator on what the checker accepts, core language first
    (_partial: see [core] in Proofs/TypeSafetyProofs.v -- no regular expressions, no field
    access, no IN over a list-valued function, function calls limited to the conversion functions
-   upper lower str int float strlen is_int is_float, = / != on numbers only between int-shaped
-   operands (known finding C14/float-equality-fails-at-execution)).  Element access on list
+   upper lower str int float strlen is_int is_float; = / != on numbers are covered for integer
+   and float operands alike since execEqual compares numbers with the rule of > >= < <=, see
+   float_equality_pinned_refuted below for the pre-fix behaviour).  Element access on list
    values and IN over list-valued functions are dynamically typed like JSON field access (the
    exception the property makes) and are therefore outside [core] by design, not by omission.
    For every float interface (no float law assumed), every regexp oracle, every CheckCtx and
@@ -128,6 +129,25 @@ Theorem no_dynamic_type_error_partial :
   dyn_ok fo re k v (rewrite_name (c_names ctx) e1).
 Proof. exact checked_tree_safe. Qed.
 Print Assumptions no_dynamic_type_error_partial.
+
+(* regression witness for the repaired finding C14/float-equality-fails-at-execution: the
+   pre-fix execEqual (Model/Eval.v equal_values_pinned) answered two operands of the static
+   type Number with the operand-type error as soon as one of them was a float, for every float
+   interface; the repaired one never does *)
+Theorem float_equality_pinned_refuted :
+  forall (fo : fops) (f : F fo) (z : Z) (p : nat),
+  equal_values_pinned fo (VFlt f) (VFlt f) p = Err (EExec p) /\
+  equal_values_pinned fo (VFlt f) (VInt z) p = Err (EExec p) /\
+  equal_values_pinned fo (VInt z) (VFlt f) p = Err (EExec p).
+Proof. intros; repeat split. Qed.
+Print Assumptions float_equality_pinned_refuted.
+
+Theorem float_equality_total :
+  forall (fo : fops) (a b : value fo) (p : nat),
+  vty fo a TNumber = true -> vty fo b TNumber = true ->
+  exists x, equal_values fo a b p = Ok x.
+Proof. exact number_equality_total. Qed.
+Print Assumptions float_equality_total.
 
 (* ... and the WHERE clause of a row never fails with "result is not boolean" *)
 Theorem where_clause_safe_partial :
